@@ -16,15 +16,20 @@
         operator equals  sum_i h_ii 1/2 (1 - V_i) + sum_{i<j} h_ij (i/2)(E_ij V_j - E_ij V_i)
         and is Hermitian for real h (a); index maps of the face-centred lattice are mutually inverse and
         edge_to_odd_face_index returns -1 or a valid auxiliary-face index.
+      L2, ALL shapes (unbounded; theorems 13-18, names without _bounded): {E_ij,E_jk} = 0 for edges sharing
+        one vertex, [E_ij,E_kl] = 0 for disjoint edges; (b) the encoded operator commutes with the loop
+        product around every face; (c) the loop product is the identity string (phase +1) on faces carrying
+        an auxiliary qubit and a non-trivial Hermitian involution elsewhere, all loop products commute, the
+        loop product does not depend on the starting corner / direction; on strings and on matrices.
+        Proof: sparse-support calculus (a dot product with a string supported on a duplicate-free window
+        only reads the window; group laws of strings with phases), letters of E_ij as functions of the
+        coordinates, injectivity of the qubit index on vertices / auxiliary faces, invariance under even
+        translations, and ONE vm_compute over the 4096 relative placements of two edges whose soundness
+        lemma quantifies over all shapes (Compact/CompactSparse.v, CompactLocal.v, CompactLoops.v).
+        C13_shape_ok_all: the decision procedure the bounded sweep evaluates is true on every shape.
       L1', BOUNDED, all shapes r x c with 1 <= r, c <= 6 (names end in _bounded; one vm_compute over the
-        36 shapes lifted with forallb_forall): {E_ij,E_jk} = 0 for edges sharing one vertex,
-        [E_ij,E_kl] = 0 for disjoint edges; (b) and (c) on strings and on matrices; the loop product does
-        not depend on the starting corner / direction.
+        36 shapes lifted with forallb_forall): the same statements as L2; kept as an independent cross-check.
     WHAT IS MISSING (C13 stays PARTIAL):
-      L2: (b), (c) and the edge-edge relations for ALL shapes.  Intended statement:
-          forall r c, 1 <= r -> 1 <= c -> rel_ok r c = true /\ loops_ok r c = true
-        (reduction to local neighbourhood types: supports have <= 3 sites and the letters depend only on
-        coordinate parities and boundary contact).  Not proved; only r, c <= 6 is.
       (d): "relation set R  =>  same spectrum with uniform multiplicity on the joint +1 eigenspace" is the
         Derby-Klassen representation theorem (Phys. Rev. B 104, 035118); it is background mathematics,
         NOT proved here.  Clause (d) is only tested numerically by checks/C13.py (dense, <= 12 qubits).
@@ -32,7 +37,7 @@
     [Run.GenCompact] is regenerated from /repo/src/qib/lattice/odd_face_centered_lattice.py and
     /repo/src/qib/transform/compact_encoding.py on every run (gen/compact.py); the C13_tie_... theorems
     below are therefore re-proved against what the code says now. *)
-From Qib Require Import Compact.CompactBounded Base.Inst.
+From Qib Require Import Compact.CompactLoops Base.Inst.
 From Coq Require Import QArith ZifyBool.
 From Run Require Import GenCompact.
 Ltac Zify.zify_post_hook ::= Z.to_euclidean_division_equations.
@@ -328,8 +333,8 @@ Theorem C13_encoded_commutes_with_loops_bounded : forall (K : Scalar) (L : Scala
 Proof. intros K L. exact encoded_commutes_with_loops_bounded. Qed.
 Print Assumptions C13_encoded_commutes_with_loops_bounded.
 
-(** (a) + (b) + (c) together for r, c <= 6.  PARTIAL: clause (d) (spectrum on the code space) is the
-    Derby-Klassen theorem and is not proved; (b), (c) for r or c > 6 are not proved. *)
+(** (a) + (b) + (c) together for r, c <= 6 (the all-shapes version is theorem 18 below).  PARTIAL:
+    clause (d) (spectrum on the code space) is the Derby-Klassen theorem and is not proved. *)
 Theorem C13_compact_encoding_partial_bounded : forall (K : Scalar) (L : ScalarLaws K) (half : K) isz symb,
   sconj half = half ->
   forall r c, 1 <= r <= 6 -> 1 <= c <= 6 ->
@@ -357,6 +362,103 @@ Qed.
 Print Assumptions C13_compact_encoding_partial_bounded.
 
 (* ------------------------------------------------------------------------------------------- *)
+(** * L2: all lattice shapes (no bound on r, c) *)
+
+(** 13. {E_ij, E_jk} = 0 for edges sharing exactly one vertex, [E_ij, E_kl] = 0 otherwise; every shape *)
+Theorem C13_edge_edge_relations : forall (K : Scalar) (L : ScalarLaws K) r c,
+  forall ix iy jx jy kx ky lx ly E E',
+    code_edge r c ix iy jx jy = Some E -> code_edge r c kx ky lx ly = Some E' ->
+    let one_shared := Nat.eqb (shared ((ix, iy), (jx, jy)) ((kx, ky), (lx, ly))) 1 in
+    pcommutes E E' = negb one_shared /\
+    forall rr cc, length rr = nq r c -> length cc = nq r c ->
+      mmul (nq r c) (pmatrix (K:=K) E) (pmatrix E') rr cc
+      = (if one_shared then sopp (mmul (nq r c) (pmatrix E') (pmatrix E) rr cc)
+         else mmul (nq r c) (pmatrix E') (pmatrix E) rr cc).
+Proof.
+  intros K L r c ix iy jx jy kx ky lx ly E E' HE HE'. cbv zeta.
+  destruct (C13_code_operators_are_model r c ix iy jx jy) as [_ EE]. rewrite EE in HE.
+  destruct (C13_code_operators_are_model r c kx ky lx ly) as [_ EE']. rewrite EE' in HE'.
+  pose proof (R_edge_edge r c _ _ _ _ _ _ _ _ _ _ HE HE') as C.
+  destruct (edge_wf _ _ _ _ _ _ _ HE) as [WE _]. destruct (edge_wf _ _ _ _ _ _ _ HE') as [WE' _].
+  split; [exact C|]. intros rr cc Hrr Hcc.
+  destruct (Nat.eqb _ 1); cbn [negb] in C.
+  - apply (panticommutes_sound _ _ _ WE WE' C rr cc Hrr Hcc).
+  - apply (pcommutes_sound _ _ _ WE WE' C rr cc Hrr Hcc).
+Qed.
+Print Assumptions C13_edge_edge_relations.
+
+(** 14. clause (c) on strings, every shape: the loop product around the face with lower corner (x, y)
+    exists, is the same for every starting corner and direction, is the identity string on faces with an
+    auxiliary qubit, elsewhere a non-trivial Hermitian involution; it commutes with every loop product and
+    with every string the encoder can insert *)
+Theorem C13_loop_strings : forall r c x y, 0 <= x < r - 1 -> 0 <= y < c - 1 ->
+  exists Lp, loop r c x y = Some Lp /\ wfp (nq r c) Lp /\
+    (forall s d, (s < 4)%nat -> loop_var r c x y s d = Some Lp) /\
+    (is_aux x y = true -> Lp = pidentity (m_nsites r c)) /\
+    (is_aux x y = false ->
+       pherm Lp = true /\ pmul Lp Lp = pidentity (m_nsites r c) /\ nontrivial Lp = true) /\
+    (forall x' y' Lp', 0 <= x' < r - 1 -> 0 <= y' < c - 1 -> loop r c x' y' = Some Lp' ->
+                       pcommutes Lp Lp' = true) /\
+    (forall t p, In t (term_strings r c) -> t = Some p -> pcommutes p Lp = true).
+Proof. exact loops_all. Qed.
+Print Assumptions C13_loop_strings.
+
+(** 15. clause (c) on matrices, every shape *)
+Theorem C13_loop_matrices : forall (K : Scalar) (L : ScalarLaws K) r c x y,
+  0 <= x < r - 1 -> 0 <= y < c - 1 ->
+  exists Lp, loop r c x y = Some Lp /\
+    (is_aux x y = true -> meq (K:=K) (nq r c) (pmatrix Lp) mid) /\
+    (is_aux x y = false ->
+       hermitian (K:=K) (nq r c) (pmatrix Lp) /\
+       meq (K:=K) (nq r c) (mmul (nq r c) (pmatrix Lp) (pmatrix Lp)) mid /\
+       (forall x' y' Lp', 0 <= x' < r - 1 -> 0 <= y' < c - 1 -> loop r c x' y' = Some Lp' ->
+                          commM (K:=K) (nq r c) (pmatrix Lp) (pmatrix Lp'))).
+Proof. intros K L. exact loop_matrices_all. Qed.
+Print Assumptions C13_loop_matrices.
+
+(** 16. clause (b), every shape: the encoded operator commutes with the loop product around every face *)
+Theorem C13_encoded_commutes_with_loops : forall (K : Scalar) (L : ScalarLaws K) r c,
+  forall (half : K) isz symb (hs : list (coeffs (K:=K))) op,
+    encode half isz symb r c hs = Some op ->
+    forall x y Lp, 0 <= x < r - 1 -> 0 <= y < c - 1 -> loop r c x y = Some Lp ->
+      commM (K:=K) (nq r c) (opmatrix op) (pmatrix Lp).
+Proof. intros K L. exact encoded_commutes_with_loops_all. Qed.
+Print Assumptions C13_encoded_commutes_with_loops.
+
+(** 17. the string-level decision procedure for the relation set R and the loop statements (the one
+    CompactBounded evaluates for r, c <= 6) is true on every shape *)
+Theorem C13_shape_ok_all : forall r c, 1 <= r -> 1 <= c -> rel_ok r c = true /\ loops_ok r c = true.
+Proof. intros r c Hr Hc. split; [apply rel_ok_all; assumption|apply loops_ok_all]. Qed.
+Print Assumptions C13_shape_ok_all.
+
+(** 18. (a) + (b) + (c) together for EVERY shape.  PARTIAL only because clause (d) (spectrum on the code
+    space) is the Derby-Klassen theorem and is not proved. *)
+Theorem C13_compact_encoding_partial : forall (K : Scalar) (L : ScalarLaws K) (half : K) isz symb,
+  sconj half = half ->
+  forall r c (hs : list (coeffs (K:=K))) op,
+    (forall h, In h hs -> forall i j, sconj (h i j) = h i j) ->
+    encode half isz symb r c hs = Some op ->
+    hermitian (nq r c) (opmatrix op) /\
+    forall x y, 0 <= x < r - 1 -> 0 <= y < c - 1 ->
+      exists Lp, loop r c x y = Some Lp /\
+        commM (K:=K) (nq r c) (opmatrix op) (pmatrix Lp) /\
+        (is_aux x y = true -> meq (K:=K) (nq r c) (pmatrix Lp) mid) /\
+        (is_aux x y = false ->
+           hermitian (K:=K) (nq r c) (pmatrix Lp) /\
+           meq (K:=K) (nq r c) (mmul (nq r c) (pmatrix Lp) (pmatrix Lp)) mid /\
+           (forall x' y' Lp', 0 <= x' < r - 1 -> 0 <= y' < c - 1 -> loop r c x' y' = Some Lp' ->
+                              commM (K:=K) (nq r c) (pmatrix Lp) (pmatrix Lp'))).
+Proof.
+  intros K L half isz symb Hh r c hs op Hreal H. split.
+  - apply (encode_hermitian half isz symb Hh r c hs op Hreal H).
+  - intros x y Hx Hy.
+    destruct (loop_matrices_all (K:=K) r c x y Hx Hy) as [Lp [HL [A B]]].
+    exists Lp. split; [exact HL|]. split; [|split; assumption].
+    apply (encoded_commutes_with_loops_all (K:=K) r c half isz symb hs op H x y Lp Hx Hy HL).
+Qed.
+Print Assumptions C13_compact_encoding_partial.
+
+(* ------------------------------------------------------------------------------------------- *)
 (** non-vacuity: a concrete non-trivial instance (3 x 3 lattice, 11 qubits, Gaussian-rational weights) *)
 Example C13_instance :
   let h : coeffs (K:=QI) := fun i j =>
@@ -366,9 +468,14 @@ Example C13_instance :
            then ((-1 # 1)%Q, 0%Q) else (0%Q, 0%Q) in
   (exists E, code_edge 3 3 1 2 1 1 = Some E /\ pq E = 2 /\ nth 10 (pz E) false = true) /\
   (exists Lp, loop 3 3 1 0 = Some Lp /\ nontrivial Lp = true /\ is_aux 1 0 = false) /\
+  (* a shape outside the bounded sweep: 8 x 9, 100 qubits *)
+  (exists Lp, loop 8 9 6 7 = Some Lp /\ nontrivial Lp = true /\ is_aux 6 7 = false) /\
+  (exists Lp, loop 8 9 6 6 = Some Lp /\ Lp = pidentity (m_nsites 8 9) /\ is_aux 6 6 = true) /\
   option_map (@length _) (encode (K:=QI) ((1 # 2)%Q, 0%Q) (fun w => qi_eqb w (0%Q, 0%Q)) qi_eqb 3 3 [h]) = Some 34%nat.
 Proof.
-  cbv zeta. split; [|split].
+  cbv zeta. split; [|split; [|split; [|split]]].
+  - eexists. split; [vm_compute; reflexivity|]. split; vm_compute; reflexivity.
+  - eexists. split; [vm_compute; reflexivity|]. split; vm_compute; reflexivity.
   - eexists. split; [vm_compute; reflexivity|]. split; vm_compute; reflexivity.
   - eexists. split; [vm_compute; reflexivity|]. split; vm_compute; reflexivity.
   - vm_compute. reflexivity.
